@@ -128,7 +128,7 @@ func ruleSubjectDelivers() check.Rule {
 						continue
 					}
 					rvT := recvObj(info, fd)
-					var copies, clears []token.Pos
+					var copies, clears []*ast.AssignStmt
 					ast.Inspect(fd.Body, func(x ast.Node) bool {
 						as, ok := x.(*ast.AssignStmt)
 						if !ok {
@@ -136,11 +136,11 @@ func ruleSubjectDelivers() check.Rule {
 						}
 						for i, l := range as.Lhs {
 							if fs := fieldSelOf(info, l, rvT); fs != nil && fs.Sel.Name == "observer" {
-								clears = append(clears, as.Pos())
+								clears = append(clears, as)
 							}
 							if i < len(as.Rhs) {
 								if fs := fieldSelOf(info, as.Rhs[i], rvT); fs != nil && fs.Sel.Name == "observer" {
-									copies = append(copies, as.Pos())
+									copies = append(copies, as)
 								}
 							}
 						}
@@ -152,9 +152,9 @@ func ruleSubjectDelivers() check.Rule {
 					key := fmt.Sprintf("ro.%s.%s/copy-before-clear", tname, mn)
 					bad := false
 					for _, cp := range copies {
-						// the nearest clear in the same method that precedes the copy by less than the span of the block
 						for _, cl := range clears {
-							if cl < cp && cp-cl < 200 {
+							// same statement list, clear first
+							if m.Parent(p, cl) == m.Parent(p, cp) && cl.Pos() < cp.Pos() {
 								bad = true
 							}
 						}
